@@ -310,4 +310,63 @@ theorem drain_kills_all : ∀ (n : Nat) (s : ASt), s.chan.length = n →
 example : (run {} [.spawn, .prepare 0, .clone 0, .dec 0, .recv]).alive 0 = true := by decide
 example : (drain (run {} [.spawn, .prepare 0, .clone 0, .dec 0, .dec 0, .send 0])).alive 0 = false := by decide
 
+/-! ### Message accounting (liveness under every schedule)
+
+`Acc` is the other half of the reference count: `Inv` says a message exists only for a signal whose count is zero,
+`Acc` says a signal whose count is zero and whose destructor has run has its message in the channel or collected. -/
+structure Acc (s : ASt) : Prop where
+  zeroAcc : ∀ a, a < s.nArc → s.count a = 0 → s.zeroed a = true ∨ s.sent a = true
+  sentAcc : ∀ a, s.sent a = true → a ∈ s.chan ∨ a ∈ s.received
+
+theorem acc_init : Acc ({} : ASt) := by
+  constructor <;> intros <;> simp_all
+
+theorem acc_act {s : ASt} (h : Acc s) (x : Action) : Acc (act s x) := by
+  obtain ⟨h1, h2⟩ := h
+  cases x <;> constructor <;> intro a <;> simp only [act] <;> (try split) <;> (try split) <;> simp_all [upd, despawnRec] <;> grind
+
+
+theorem acc_run {s : ASt} (h : Acc s) (sched : List Action) : Acc (run s sched) := by
+  unfold run
+  induction sched generalizing s with
+  | nil => exact h
+  | cons x xs ih => exact ih (acc_act h x)
+
+/-- **No lost wake-up**: under every schedule, a signal whose count is zero is either between the decrement that reached
+    zero and its destructor (`zeroed`: some thread still has to run `Drop`), or its message has been sent and is in the
+    channel or was collected. No interleaving of clones, drops and collections loses the message of a signal. -/
+theorem dropped_signal_accounted (sched : List Action) (a : Nat) (ha : a < (run {} sched).nArc)
+    (hc : (run {} sched).count a = 0) (hz : (run {} sched).zeroed a = false) :
+    a ∈ (run {} sched).chan ∨ a ∈ (run {} sched).received := by
+  have h := acc_run acc_init sched
+  rcases h.zeroAcc a ha hc with hz' | hs
+  · rw [hz] at hz'; cases hz'
+  · exact h.sentAcc a hs
+
+/-- **The first garbage collection after the last drop**: after any schedule, for a signal all of whose clones are gone
+    and whose destructor has run, either its message was already collected (`recv_kills`: its entity was dead when that
+    receive returned), or the next complete collection pass leaves its entity dead. -/
+theorem gc_after_last_drop (sched : List Action) (a : Nat) (ha : a < (run {} sched).nArc)
+    (hc : (run {} sched).count a = 0) (hz : (run {} sched).zeroed a = false) :
+    a ∈ (run {} sched).received ∨ (drain (run {} sched)).alive ((run {} sched).ent a) = false := by
+  rcases dropped_signal_accounted sched a ha hc hz with hin | hin
+  · exact Or.inr ((drain_kills_all _ _ rfl).2.1 a hin)
+  · exact Or.inl hin
+
+/-- The message exists exactly for dropped signals: with `live_clone_not_sent`, a signal is in the channel or collected
+    iff (modulo the destructor window) its count is zero. -/
+theorem collected_was_dropped (sched : List Action) (a : Nat)
+    (hin : a ∈ (run {} sched).chan ∨ a ∈ (run {} sched).received) : (run {} sched).count a = 0 := by
+  have h := inv_run inv_init sched
+  rcases hin with hin | hin
+  · exact h.sentZero a (h.chanSent a hin)
+  · exact h.sentZero a (h.recvSent a hin)
+
+/-- Non-vacuity: two clones dropped by two threads, destructor run: the hypotheses hold and the signal is in the channel;
+    in the destructor window (`zeroed`) they do not, and nothing has been sent yet. -/
+example : let s := run {} [.spawn, .prepare 0, .clone 0, .dec 0, .dec 0, .send 0]
+    0 < s.nArc ∧ s.count 0 = 0 ∧ s.zeroed 0 = false ∧ 0 ∈ s.chan := by decide
+example : let s := run {} [.spawn, .prepare 0, .clone 0, .dec 0, .dec 0]
+    s.count 0 = 0 ∧ s.zeroed 0 = true ∧ s.chan = [] := by decide
+
 end Cobweb.Ad
